@@ -48,7 +48,9 @@ template <typename D> static void domain_case(Ctx& c, const char* nm, bool stric
   std::string text = dump(a); c.tag(std::string(nm) + " state " + header_of(text).substr(header_of(text).find('\n') == std::string::npos ? 0 : header_of(text).find('\n') + 1));
   c.log << "\n dump:\n" << text.substr(0, 600) << "\n";
   c.check(std::string(nm) + ".load", load(b, text), [&] { return std::string("ascii_load failed on the dump of a ") + nm; });
-  c.check(std::string(nm) + ".OK", b.OK(), "the loaded object fails OK()");
+  // (the library's OK() is stricter than its operations guarantee - e.g. Grid::simplify is not idempotent on some generator systems, so
+  //  a grid reached through is_universe() may already fail OK(): the invariant of the copy is only demanded when the original has it)
+  if (a.OK()) c.check(std::string(nm) + ".OK", b.OK(), "the loaded object fails OK()"); else c.tag(std::string(nm) + ": the original already fails OK()");
   std::string again = dump(b); c.check(std::string(nm) + ".same_text", again == text, [&] { return "second dump differs from the first:\n--- original\n" + text + "--- reloaded\n" + again; });
   if (value_eq) c.check(std::string(nm) + ".same_value", a == b, "the loaded object compares different from the original");
   D a2(a), b2(b); int more = (int) t.range(1, 4); c.log << " suffix:";
